@@ -113,7 +113,61 @@ def sensitivity(args):
     return 1 if bad else 0
 
 
+def seeded(args):
+    """Every change under /verif/seeded (written by independent sub-agents) must
+    be reported by the QUICK tier of the check of its property."""
+    import glob
+
+    base = os.path.join(core.SHM, f"pgsim-seeded-{os.getpid()}")
+    shutil.rmtree(base, ignore_errors=True)
+    bad = 0
+    results = []
+    for mp in sorted(glob.glob(os.path.join(core.VERIF_DIR, "seeded", "*", "meta.json"))):
+        with open(mp) as f:
+            m = json.load(f)
+        if args.only and args.only not in m["id"]:
+            continue
+        d = os.path.join(base, m["id"])
+        os.makedirs(d)
+        try:
+            shutil.copytree(os.path.join("/repo", "parglare"), os.path.join(d, "parglare"),
+                            ignore=shutil.ignore_patterns("__pycache__"))
+            patch = os.path.join(os.path.dirname(mp), "patch.diff")
+            r = subprocess.run(["patch", "-p1", "-s", "-d", d, "-i", patch],
+                               capture_output=True, text=True)
+            if r.returncode != 0:
+                print(f"seeded {m['id']}: PATCH DOES NOT APPLY\n{r.stdout}{r.stderr}")
+                bad += 1
+                continue
+            for prop in m["caught_by"]:
+                t0 = time.monotonic()
+                scratch = os.path.join(base, "out")
+                env = dict(os.environ)
+                env.update({"PARGLARE_SRC": d, "PGSIM_EVIDENCE_DIR": scratch,
+                            "PGSIM_REPLAY_DIR": os.path.join(scratch, "replays")})
+                env.pop("PYTHONHASHSEED", None)
+                r = subprocess.run([sys.executable, os.path.join(core.VERIF_DIR, "check"), prop,
+                                    "--tier", "quick"], capture_output=True, text=True, env=env,
+                                   timeout=3000)
+                dt = time.monotonic() - t0
+                ok = r.returncode == 1 and "VIOLATION property=" in r.stdout
+                results.append({"id": m["id"], "check": prop, "exit": r.returncode, "ok": ok,
+                                "wall_s": round(dt, 1)})
+                print(f"seeded {m['id']:8s} {prop} quick: exit={r.returncode} "
+                      f"{'CAUGHT' if ok else 'MISSED'} {dt:.1f}s")
+                if not ok:
+                    bad += 1
+                    print(r.stdout[-800:])
+        finally:
+            shutil.rmtree(d, ignore_errors=True)
+    shutil.rmtree(base, ignore_errors=True)
+    core.write_json(os.path.join(core.VERIF_DIR, "seeded", "last_results.json"), results)
+    return 1 if bad else 0
+
+
 def main(args):
+    if args.what == "seeded":
+        return seeded(args)
     rc = 0
     if args.what in ("determinism", "all"):
         rc |= determinism(args)
